@@ -57,7 +57,7 @@ def main():
         })
     doc = {
         "version": 1,
-        "setup_cmd": "/venv/bin/python -c \"import ply, sys; sys.path.insert(0, '/verif'); import nslmc.cli\"",
+        "setup_cmd": "(gcc -O2 -shared -fPIC -o native/arena.so native/arena.c || true) && /venv/bin/python -c \"import ply, sys; sys.path.insert(0, '/verif'); import nslmc.cli\"",
         "hooks": {
             "guard": "ANTERU_NSL_VERIF",
             "enable": "no source hooks: checks import a snapshot of /repo's working tree and observe public API only (the harness sets ANTERU_NSL_VERIF=1 for uniformity; nothing in /repo reads it)",
